@@ -113,7 +113,7 @@ CHECKS['C11'] = dict(
 NOT_APPLICABLE = {
  'C01': 'shared ABI generator is generic over Bindgen/Resolve with closures and iterator adapters (outside the Verus subset); Kani did not finish one tuple<u8,u32> through the real generator in 15 min (DESIGN §5)',
  'C03': 'same functions as C01 (deallocate / deallocate_indirect over Resolve): outside both verifiers (DESIGN §5)',
- 'C09': 'decided by rustc + the component encoder, not by a postcondition (DESIGN §5)',
+ 'C09': 'decided by rustc + the component encoder, not by a postcondition (DESIGN §5); one C09 defect met while building the map probe was repaired all the same (fix: e6f5a47, DESIGN §9.17) but no check here decides the property',
  'C12': 'decided by clang + the component encoder (DESIGN §5)',
  'C13': 'whole-output property of seven string emitters against wit-component; no function boundary carries it (DESIGN §5)',
  'C15': 'two-run hyperproperty over hash seeds; contracts are single-run (DESIGN §5)',
